@@ -8,6 +8,8 @@ CONSTANTS MaxPre = 1 MaxN = 5
   Places = {"alone"}
   StopFlag = "per_branch"
   CopyMode = "per_branch"
+  AdapterHides = TRUE
+  VarCopy = "per_value"
   Bufs <- BufOne
 INVARIANT DriversAgree
 INVARIANT FillReaches
